@@ -15,7 +15,8 @@ EXTENDS Naturals, Sequences, FiniteSets
 \* PE is a pointer type implementing the interface type E = error (Convert to error is a corner of C10);
 \* L1 and L2 are two distinct types that PRINT the same name (declared in different scopes) - they never
 \* occur together in one scenario
-Concrete == {"T1", "T2", "T3", "T4", "T5", "T6", "U1", "PE", "L1", "L2"}
+\* T7 is a type whose printed name is lower case ("scn.t7"), so that it can occur inside a (lower-cased) name
+Concrete == {"T1", "T2", "T3", "T4", "T5", "T6", "T7", "U1", "PE", "L1", "L2"}
 \* I12 is an interface embedding I1 and I2 (implemented by T2 only): an interface implementing wider interfaces
 Ifaces   == {"I1", "I2", "E", "I12"}
 Impl     == {<<"T1", "I1">>, <<"T2", "I1">>, <<"T2", "I2">>, <<"T3", "I2">>, <<"PE", "E">>,
